@@ -392,32 +392,32 @@ fn raster_scan_rows_public_api() {
 
 // @ob props=C04,C02 tier=quick kind=P cfg=core-std timeout=1800
 // @fn scan ; <ScanlineIter<V> as Iterator>::next
-// @clause through the public API only: two vertically adjacent trapezoids sharing the edge y = ym (as the two halves of a triangle do) partition the rows: every centre in (y0, y1] away from the outer edges is emitted exactly once by the pair, in particular a centre lying exactly on or next to the shared edge is neither lost nor drawn twice; for any float y0 <= ym <= y1 in [0,4]
+// @clause through the public API only: two vertically adjacent trapezoids sharing the edge y = ym (as the two halves of a triangle do) partition the rows: every centre in (y0, y1] away from the outer edges is emitted exactly once by the pair, in particular a centre lying exactly on or next to the shared edge is neither lost nor drawn twice; for any float y0 <= ym <= y1 in [0,3]
 #[cfg(not(verif_skip_raster_adjacent_scans_partition_rows))]
 #[kani::proof]
-#[kani::unwind(7)]
+#[kani::unwind(6)]
 fn raster_adjacent_scans_partition_rows() {
-    let (y0, ym, y1) = (any_f(0.0, 4.0), any_f(0.0, 4.0), any_f(0.0, 4.0));
+    let (y0, ym, y1) = (any_f(0.0, 3.0), any_f(0.0, 3.0), any_f(0.0, 3.0));
     kani::assume(y0 <= ym && ym <= y1);
     let p = |x, y| -> Varyings<()> { (pt3(x, y, 1.0), ()) };
-    let mut rows = [0u8; 4];
+    let mut rows = [0u8; 3];
     let mut last: i32 = -1;
     let (a0, a1, b0, b1) = (p(1.0, y0), p(1.0, ym), p(3.0, y0), p(3.0, ym));
     for sl in scan(y0..ym, &a0..&a1, &b0..&b1) {
-        assert!(sl.y < 4 && sl.y as i32 > last);
+        assert!(sl.y < 3 && sl.y as i32 > last);
         last = sl.y as i32;
         rows[sl.y] += 1;
     }
     let (c0, c1, d0, d1) = (p(1.0, ym), p(1.0, y1), p(3.0, ym), p(3.0, y1));
     for sl in scan(ym..y1, &c0..&c1, &d0..&d1) {
-        assert!(sl.y < 4 && sl.y as i32 > last);
+        assert!(sl.y < 3 && sl.y as i32 > last);
         last = sl.y as i32;
         rows[sl.y] += 1;
     }
     kani::cover!(ym == 1.5 && rows[1] == 1);
-    kani::cover!(rows[0] == 1 && rows[3] == 1);
+    kani::cover!(rows[0] == 1 && rows[2] == 1);
     let mut k = 0;
-    while k < 4 {
+    while k < 3 {
         let c = k as F + 0.5;
         if y0 + 0.001 < c && c <= y1 - 0.001 {
             assert!(rows[k] == 1);
